@@ -312,10 +312,10 @@ def evidence_coverage(stats, extra=None):
 
 TIERS = {
     # per = values per type and preset; budget = leaf bytes per value
-    "C04": {"quick": dict(per=6, budget=5000, malmax=2500, over=1, rounds=1),
-            "thorough": dict(per=14, budget=14000, malmax=5000, over=3, rounds=3, time_budget=900)},
-    "C05": {"quick": dict(per=7, budget=6000, malmax=0, over=0, rounds=1),
-            "thorough": dict(per=16, budget=16000, malmax=0, over=0, rounds=3, time_budget=800)},
+    "C04": {"quick": dict(per=5, budget=5000, malmax=2000, over=1, rounds=1),
+            "thorough": dict(per=10, budget=9000, malmax=4000, over=2, rounds=3, time_budget=650)},
+    "C05": {"quick": dict(per=6, budget=6000, malmax=0, over=0, rounds=1),
+            "thorough": dict(per=12, budget=12000, malmax=0, over=0, rounds=3, time_budget=600)},
 }
 
 
